@@ -206,10 +206,27 @@ def r5_final_job_directory(chk: Check):
     r2_table(chk, direction="emitted", only_atom="generated")
 
 
+
+def r6_known_gaps(chk: Check):
+    """Two ways a generated path leaves the job directory (findings kept in known_findings.json)"""
+    tree = chk.tree
+    pre = [ff for k, ff in tree.funcs.items() if k.startswith("core.objects:ConfigInformation.seal.") and ff.node.name == "preprocess"]
+    for ff in pre:
+        skips = any(isinstance(x, ast.Return) and "_sealed" in src(x) for x in body_walk(ff.node))
+        chk.require(not skips, chk.fkey(ff, "sealed configurations keep their paths"),
+                    "the sealing walk skips configurations that are already sealed: a sub-configuration shared by two tasks keeps the paths generated for the first one, "
+                    "so the second task's parameter points into the first task's job directory", chk.loc(ff.module, ff.node))
+    mp = tree.func("core.objects", "ConfigWalk.map")
+    verb = any(isinstance(c, ast.Call) and tail(c) == "push" and c.args and isinstance(c.args[0], ast.Name) for c in fn_calls(mp.node))
+    chk.require(not verb, chk.fkey(mp, "dict keys are path components"), "a dict key is pushed verbatim as a path component: keys such as '/data/x' or '../../y' place generated paths outside the job directory "
+                "(or give two objects the same path)", chk.loc(mp.module, mp.node))
+
+
 RULES = [
     ("R1", "rooted in the job directory: generated path = context position / declared name on every branch; position = job path / relative position; the task is sealed with its own job context", r1_rooted),
     ("R2", "position discipline: every recursive descent pushes its sibling-unique key (argument name, list index, dict key, reserved keys); push = parent / key unchanged, restored in finally", r2_positions),
     ("R3", "generation happens once per configuration: only the sealing walk calls generators, with the walk context; sealed nodes are not revisited; one visit per object", r3_generated_once),
     ("R5", "paths are generated under the *final* job directory: everything that enters the identifier (init tasks) is attached before sealing (= C14.R3); no generated argument is hashed (= C02.R2 restricted to generated arguments)", r5_final_job_directory),
     ("R4", "reproducibility: no time / random / environment / cwd in the path-generation slice; the walk follows declaration order", r4_reproducible),
+    ("R6", "generated paths leaving the job directory (findings kept in known_findings.json): sealed shared sub-configurations keep the first task's paths; dict keys used verbatim as path components", r6_known_gaps),
 ]
